@@ -669,6 +669,14 @@ func init() {
 		for i := 0; i < tierPick(tier, 96, 1920); i++ {
 			cases = append(cases, eRetryExpiryCase("C12", seed, i, []string{"close", "cancel"}[i%2]))
 		}
+		// joins: created, closed, and failing to be created over a stopped controller;
+		// nothing may be left running (E10's scenarios, leak / hang classes)
+		leak := map[string]bool{"join-leaks-goroutines": true, "join-close-hang": true, "join-zombie": true}
+		for _, k := range []string{"ingress-pods", "service-pod", "ingress-service", "job-pod"} {
+			for i := 0; i < tierPick(tier, 2, 30); i++ {
+				cases = append(cases, e10As(e10Case(k, seed, i), "C12", leak))
+			}
+		}
 		return cases
 	})
 }
